@@ -35,11 +35,27 @@ PROOF = "Gallia.Proofs.C17"
 DRIVER = "c17"
 ORACLE = True
 ASSUMPTIONS = [
-    "json.dumps / json.loads, zstandard, gzip, mmap, datetime.isoformat/fromisoformat and logging.QueueHandler are "
-    "represented by their contracts; the escaper / string scanner contract is itself tied (esc / unesc against json)",
+    "json.dumps / json.loads, zstandard, gzip, mmap / tempfile (identity on bytes), datetime.fromtimestamp (epoch -> civil fields) and the "
+    "logging machinery up to the LogRecord are represented by their contracts; the json string escaper / scanner contract is itself tied "
+    "(esc / unesc against json); in the hr model json.loads, zstandard and gzip are functions of an environment: the theorems assume "
+    "their round-trip contracts (Env.LoadsOk, Env.Decodes, shown satisfiable), and for foreign / damaged input the harness hands the "
+    "model what the same library calls return",
+    "datetime.isoformat is modelled exactly; datetime.fromisoformat is a port of CPython 3.12's C algorithm for extended-format calendar "
+    "dates (YYYY-MM-DD...), tied in both directions on ~5k strings per run; basic-format and week dates and UTC offsets with a fraction "
+    "are outside the model (counted as outside-model, never compared)",
+    "argparse is modelled as the interpreter under /venv (CPython 3.12.1) behaves for the parser hr.parse_args() builds (its option table, "
+    "defaults, choices and exclusive group are regenerated): exact and abbreviated long options, --opt=value, attached short values, "
+    "clusters of short flags, --, negative numbers as arguments, only the first run of positionals; an explicit value `--` (-p=--) and "
+    "non-ASCII digits / whitespace in -n / -p values are outside the model",
     "text is valid Unicode (scalar values); lone surrogates are exercised for the tie only, never adjacent high+low",
-    "offset k is exercised for valid record indices (-len <= k < len, and 0 on an empty log); head / tail n for n >= 0",
-    "tags are lists of str (or absent); the file is read after the handler was closed",
+    "offset k (reader API) is exercised for valid record indices (-len <= k < len, and 0 on an empty log); hr --head / --tail also with a "
+    "negative -n (ValueError / IndexError, exit 1, as the code does)",
+    "tags are lists of str (or absent) on the writer side; on the reader side any JSON value whose effect on str(record) is determined "
+    "(null, string, list of strings, numbers, booleans); nested arrays / objects / non-integral floats where a member is interpreted are "
+    "outside the model (counted as outside-model); the file is read after the handler was closed",
+    "standard input is a pipe (read once: a second `-` sees nothing); files the process may not read are not exercised (the check runs as "
+    "root); hr's output is compared without colours (--color is parsed into the plan, ANSI styling is not modelled), month names as in "
+    "the C locale",
 ]
 
 # RFC 3164 style priorities of the seven levels (the oracle side of the level mapping)
@@ -122,6 +138,8 @@ def gen_call(rng, maxlen=40, long_ok=0):
         call["args"] = True
     if rng.random() < 0.1:
         call["child"] = True
+    if rng.random() < 0.06:
+        call["stack"] = True  # stack_info=True: the queue merges the formatted stack into the message
     if rng.random() < 0.06:  # a Python str with a lone surrogate (never a high directly followed by a low one)
         lone = chr(rng.choice([0xD800, 0xDBFF, 0xDC00, 0xDFFF, rng.randrange(0xD800, 0xE000)]))
         call["text"] = rng.choice([lone + "a" + call["text"], call["text"] + "a" + lone, lone, lone + "x" + lone])
@@ -221,13 +239,13 @@ class Env:
                             raise ValueError(c["exc"])
                         except ValueError:
                             if c["m"] == "exception":
-                                f(msg, *args, extra=extra)
+                                f(msg, *args, extra=extra, stack_info=bool(c.get("stack")))
                             else:
-                                f(msg, *args, exc_info=True, extra=extra)
+                                f(msg, *args, exc_info=True, extra=extra, stack_info=bool(c.get("stack")))
                     elif c["m"] == "exception":
-                        lg.error(msg, *args, extra=extra)
+                        lg.error(msg, *args, extra=extra, stack_info=bool(c.get("stack")))
                     else:
-                        f(msg, *args, extra=extra)
+                        f(msg, *args, extra=extra, stack_info=bool(c.get("stack")))
             finally:
                 glog.remove_zst_log_handler(LOGGER, h)
         finally:
@@ -237,6 +255,8 @@ class Env:
             text = c["text"] if not c["args"] else f"{c['text']}|7"
             if k["exc_text"] is not None:  # logging.Formatter.format contract
                 text = text + ("" if text.endswith("\n") else "\n") + k["exc_text"]
+            if k["attrs"]["stack"]:
+                text = text + ("" if text.endswith("\n") else "\n") + k["attrs"]["stack"]
             lv = METHOD_LEVEL[c["m"]]
             expected.append({
                 "text": text, "priority": ORACLE_PRIO[lv],
@@ -1089,20 +1109,37 @@ def replay(ctx, case):
 
 
 MANIFEST = {
-    "level_text": ("Lean 4 theorems over the penlog oracle: a written line has no inner newline and is pure ASCII; splitting the "
+    "level_text": ("Lean 4 theorems over the penlog oracle. Lines: a written line has no inner newline and is pure ASCII; splitting the "
                    "file gives back exactly the written lines; the ensure_ascii escaper is inverted by the JSON string scanner for "
-                   "all Unicode text (surrogate pairs, control characters); every written line parses back to its record, with and "
+                   "all Unicode text (surrogate pairs, control characters); every written line parses back to its flat record, with and "
                    "without the <prio> prefix, and the prefix priority equals the record's; level <-> priority is a bijection on the "
                    "7 levels (table regenerated from the live enums); forward / reverse / offset k / tail n / head n / len over the "
                    "offset table equal filter, reverse, drop, drop (len - n), take, length of the logged sequence for all logs, also "
-                   "shorter than n and empty. Tied to the code by a correspondence run of the real logger -> _ZstdFileHandler -> file "
-                   "-> PenlogReader and the hr entry point (in-process and as a process reading stdin): byte-exact lines, field by "
-                   "field records, all small level sequences x modes x thresholds exhaustively, seeded Unicode text, tags, traces, "
-                   "plain/.zst/.gz/stdin, fresh and reused readers."),
-    "level_note": ("Trusted: Lean kernel (axioms propext, Quot.sound, Classical.choice), json / zstandard / gzip / mmap / datetime / "
-                   "logging.QueueHandler contracts (the json string escaper and scanner contract is itself checked against "
-                   "json.dumps / json.loads), the harness. The model parser accepts the writer's JSON shape only (key order, "
-                   "separators), not arbitrary JSON."),
-    "technique": "Lean 4 proof (induction over records / code points, parser round trip) + differential correspondence against the real logger, reader and hr",
+                   "shorter than n and empty. Schema: a logging.LogRecord (any of the 7 levels incl. TRACE / NOTICE, tags present / empty / "
+                   "absent, exception text, timestamp with microseconds and any whole-second UTC offset) through QueueHandler.prepare, "
+                   "_JSONFormatter.format and emit is read back by parse_json as exactly the expected PenlogRecord, all members "
+                   "(record_roundtrip); isoformat is inverted by a port of CPython's fromisoformat for every valid datetime; the "
+                   "written object has exactly the 12 regenerated member names; unknown members are ignored, absent optional members "
+                   "read like null, absent required members are refused. hr: the argument vector as argparse reads it (hrPlan): "
+                   "regenerated option table / defaults (100 lines, INFO), two different mode options are always refused, names and "
+                   "numbers of a priority give the same plan in any letter case; the decompressor is chosen by the name's suffix alone "
+                   "(<stem>.zst / <stem>.gz, characterised exactly) and a file stored for its name opens to its content given the codec "
+                   "round-trip contract; hr_output_eq_slice: for every argument vector that parses and every set of inputs (plain / "
+                   ".zst / .gz / standard input, with or without prefix) hr emits, file by file, exactly the slice of each written "
+                   "sequence its arguments denote, as the records read back, and exits with 0; exit codes 65 / 1 / 2 and the cut-off "
+                   "by a closed output pipe are part of the model. Tied to the code by correspondence runs of the real logger -> "
+                   "_ZstdFileHandler -> file -> PenlogReader and of hr.main() in-process and as a process: byte-exact lines, field by "
+                   "field records incl. the aware timestamp and the printed text; every small level sequence x mode x threshold; every "
+                   "mode x n in {absent, 0, 1, len-1, len, len+1} x priority by name / number x prefix x container; 1..3 inputs of mixed "
+                   "kinds (misleading names, truncated / foreign / junk content, missing, directory, fifo, stdin); ~6k argument vectors "
+                   "against argparse; ~1.9k foreign JSON objects against parse_json; ~5k strings against fromisoformat; UTC offsets "
+                   "incl. seconds-granular ones and DST switch instants."),
+    "level_note": ("Trusted: Lean kernel (axioms propext, Quot.sound, Classical.choice), json / zstandard / gzip / mmap / "
+                   "datetime.fromtimestamp contracts (json.loads, zstandard and gzip enter the hr theorems as hypotheses Env.LoadsOk / "
+                   "Env.Decodes; the json string escaper and scanner contract is itself checked against json.dumps / json.loads), "
+                   "the harness. The byte-level parser accepts the writer's JSON shape only; other JSON reaches the schema model as "
+                   "the value json.loads returns. argparse and fromisoformat are modelled as CPython 3.12.1 behaves and checked "
+                   "against the running interpreter on every run; inputs the model declares outside its scope are counted, not compared."),
+    "technique": "Lean 4 proof (induction over records / code points / argument strings, parser round trips, functional induction over the argparse loop) + regenerated tables + differential correspondence against the real logger, reader and hr",
     "design_ref": "DESIGN.md section 7, C17",
 }
